@@ -35,7 +35,7 @@ CONFIG = {
 }
 REQUIRED = ['steps_checked', 'structure_compared', 'meaning_terms_compared', 'watched_checks', 'op_add', 'op_become', 'op_remove',
             'op_flags', 'op_obs', 'op_copy', 'op_saveload', 'copy_output_comparisons',
-            'owners_of_a_private_observed_simulator_removed_or_replaced', 'op_become_existing', 'copies_via_copy_module']
+            'owners_of_a_private_observed_simulator_removed_or_replaced', 'op_become_existing', 'copies_via_copy_module', 'op_become_cyclic']
 
 KN = {'op': 'Operation', 'prior': 'Prior', 'sim': 'Simulator', 'summary': 'Summary', 'disc': 'Discrepancy', 'const': 'Constant'}
 
@@ -103,7 +103,7 @@ def gen_history(rng):
     nodes, ctr, hist = {}, [0], []
     for _step in range(int(rng.integers(3, 15))):
         pub = list(nodes)
-        acts = ['add'] * 3 + (['become', 'become', 'remove', 'flags', 'obs'] if pub else []) + ['copy', 'saveload'] + (['become_existing'] * 3 if len(pub) >= 2 else [])
+        acts = ['add'] * 3 + (['become', 'become', 'remove', 'flags', 'obs'] if pub else []) + ['copy', 'saveload'] + (['become_existing'] * 3 if len(pub) >= 2 else []) + (['become_cyclic'] if pub else [])
         a = str(rng.choice(acts))
         if a == 'add':
             d = _new_desc(rng, ctr, pub)
@@ -132,6 +132,21 @@ def gen_history(rng):
             T, X = cand[int(rng.integers(len(cand)))]
             nodes[T] = nodes.pop(X)
             hist.append({'op': 'become_existing', 'target': T, 'other': X})
+        elif a == 'become_cyclic':
+            # an edit that cannot be carried out: the replacement depends on the node it is to replace (a := f(a, ...)). The model
+            # must stay a consistent acyclic graph - the edit is refused and everything, the would-be replacement included, stays
+            cand = [n for n in pub if nodes[n]['kind'] != 'const']
+            if not cand:
+                continue
+            T = str(rng.choice(cand))
+            d = _new_desc(rng, ctr, pub, kinds=['op', 'summary'] if nodes[T]['kind'] in ('sim', 'summary') else ['op'])
+            via = [n for n in pub if n == T or T in _ancestors(nodes, n)]
+            dep = str(rng.choice(via))
+            if dep not in d['pos'] and dep not in d['kw'].values():
+                d['pos'].insert(int(rng.integers(len(d['pos']) + 1)), dep)
+            name = 'n%d' % ctr[0]
+            nodes[name] = d
+            hist.append({'op': 'become_cyclic', 'target': T, 'name': name, 'node': d})
         elif a == 'remove':
             leaves = [n for n in pub if not _children(nodes, n)]
             if not leaves:
@@ -170,6 +185,8 @@ def apply_ref(nodes, op):
         nodes[op['target']] = copy.deepcopy(op['node'])
     elif op['op'] == 'become_existing':
         nodes[op['target']] = nodes.pop(op['other'])
+    elif op['op'] == 'become_cyclic':
+        nodes[op['name']] = copy.deepcopy(op['node'])
     elif op['op'] == 'remove':
         del nodes[op['target']]
     elif op['op'] == 'flags':
@@ -219,6 +236,12 @@ def apply_elfi(m, op):
         m[op['target']].become(R)
     elif op['op'] == 'become_existing':
         m[op['target']].become(m[op['other']])
+    elif op['op'] == 'become_cyclic':
+        R = elfi_create(m, op['name'], op['node'])
+        try:
+            m[op['target']].become(R)
+        except ValueError:
+            pass          # refused; what the model looks like now is judged like after every other step
     elif op['op'] == 'remove':
         m.remove_node(op['target'])
     elif op['op'] == 'flags':
